@@ -632,6 +632,8 @@ def accumulator_budget(F, an, sites):
         bad = False
         for ab in acc[2]:
             obs = an.add_obs.get((f.path, ab))
+            if not obs and ab not in getattr(an, "_reached", {}).get(f.path, set()):
+                continue  # this addition is infeasible in every analysed context
             if not obs or obs[0] is None or obs[1] is None:
                 bad = True
                 break
